@@ -848,6 +848,35 @@ fn navigation_command_string(command: NavigationCommand, param: NavigationParam)
     return "Error";
 }
 
+#[cfg(feature = "verif-hooks")]
+/// Verification hook (feature `verif-hooks`, off by default; read-only).
+/// Returns a JSON snapshot of the calling thread's navigation state.
+pub fn verif_nav_snapshot() -> String {
+    fn esc(s: &str) -> String {
+        let mut out = String::with_capacity(s.len() + 2);
+        for ch in s.chars() {
+            match ch {
+                '"' => out.push_str("\\\""),
+                '\\' => out.push_str("\\\\"),
+                c if (c as u32) < 0x20 => out.push_str(&format!("\\u{:04x}", c as u32)),
+                c => out.push(c),
+            }
+        }
+        return out;
+    }
+    fn pos(p: &NavigationPosition) -> String {
+        return format!("[\"{}\",{}]", esc(&p.current_node), p.current_node_offset);
+    }
+    return NAVIGATION_STATE.with(|nav_state| {
+        let nav_state = nav_state.borrow();
+        let positions = nav_state.position_stack.iter().map(pos).collect::<Vec<String>>().join(",");
+        let commands = nav_state.command_stack.iter().map(|c| format!("\"{}\"", esc(c))).collect::<Vec<String>>().join(",");
+        let markers = nav_state.place_markers.iter().map(pos).collect::<Vec<String>>().join(",");
+        return format!("{{\"position_stack\":[{}],\"command_stack\":[{}],\"place_markers\":[{}],\"where_am_i\":{},\"mode\":\"{}\",\"speak_overview\":{}}}",
+                positions, commands, markers, pos(&nav_state.where_am_i), esc(&nav_state.mode), nav_state.speak_overview);
+    });
+}
+
 #[cfg(test)]
 mod tests {
     use super::*;
